@@ -169,13 +169,9 @@ def handle (s : St) (line : String) : St :=
   | "pools" :: _ :: toks =>
     let ts := triples toks
     let ps : List PoolBlocks := ts.map fun t => ⟨t.2.1, t.2.2⟩
-    -- per level clamp
-    let rec chk (w : Nat) (ts : List (Nat × Nat × Nat)) : Bool :=
-      match ts with
-      | [] => true
-      | t :: r => clamp w ⟨t.2.1, t.2.2⟩ == t.1 && chk t.1 r
-    let s := s.say (chk s.workers ts) "reset-clamp" s!"{ts}"
-    let s := s.say (resetTicksFixed s.workers ps == numBlocks ps) "reset-repaired-model"
+    -- every level clamps the CALLER's worker count (the value is no longer passed down clamped)
+    let okClamp := ts.all fun t => clamp s.workers ⟨t.2.1, t.2.2⟩ == t.1
+    let s := s.say okClamp "reset-clamp" s!"{ts}"
     { s with resetModel := some (resetTicks s.workers ps, numBlocks ps, resetGood ps) }
   | ["reset", ann, nt, total, counter] =>
     match s.resetModel with
@@ -184,11 +180,9 @@ def handle (s : St) (line : String) : St :=
       let s := s.say (nat! ann == mblocks && nat! total == mblocks) "reset-total" s!"real {ann}/{total} model {mblocks}"
       let s := s.say (nat! nt == mticks) "reset-tick-events" s!"real {nt} model {mticks}"
       let s := s.say (nat! counter == mticks) "reset-counter" s!"real {counter} model {mticks}"
-      -- instance of reset_ticks: complete iff resetGood
-      let s := s.say ((mticks == mblocks) == good) "reset-theorem-instance"
-      if nat! counter != nat! total then
-        { s with out := s.out.push s!"agree-defect case {s.id} reset counter {counter} total {total} good {good}" }
-      else s
+      -- instance of reset_ticks: always complete
+      let _ := good
+      s.say (mticks == mblocks) "reset-theorem-instance"
   | "snap" :: cur :: toks =>
     let q : Snap := ⟨nat! cur, (triples toks).toArray.map fun t => ⟨t.1, t.2.1, t.2.2⟩⟩
     let s := { s with snaps := s.snaps + 1 }
